@@ -27,6 +27,9 @@ type inboxCase struct {
 	Seed     int64   `json:"seed"`
 	Choices  []int   `json:"choices"`
 	Idle     *int32  `json:"idle"` // value of the idle state in actor/inbox.go (default 2)
+	// throughput budget of the inbox's scheduler (default: the stock 300, never used up by these
+	// configurations); 0 = the worker yields before every batch but the first
+	Throughput *int `json:"throughput"`
 }
 
 type inboxObs struct {
@@ -115,7 +118,11 @@ func inboxScenario(c inboxCase) func() vsched.Scenario {
 		return vsched.Scenario{
 			Describe: describe,
 			Setup: func(s *vsched.Sched) {
-				in = actor.NewInbox(c.Cap)
+				if c.Throughput != nil {
+					in = actor.VerifNewInbox(c.Cap, *c.Throughput)
+				} else {
+					in = actor.NewInbox(c.Cap)
+				}
 				rec = &recorder{in: in}
 				if !c.Starter {
 					in.Start(rec) // unmanaged: runs without yields
